@@ -419,9 +419,16 @@ func (c *ComputedStyle) cascadeValue(key pr.PropKey) (value pr.DeclaredValue, sa
 
 	parent_style := c.parentStyle
 	if rawTokens, isPending := value.(pr.RawTokens); isPending { // Property with pending values, validate them.
-		var solvedTokens []Token
+		var (
+			solvedTokens []Token
+			isCyclic     bool
+		)
 		for _, token := range rawTokens {
-			tokens := resolveVar(c.variables, token)
+			tokens, cyclic := resolveVar(c.variables, token, utils.NewSet())
+			if cyclic {
+				isCyclic = true
+				break
+			}
 			if tokens == nil {
 				solvedTokens = append(solvedTokens, token)
 			} else {
@@ -429,7 +436,10 @@ func (c *ComputedStyle) cascadeValue(key pr.PropKey) (value pr.DeclaredValue, sa
 			}
 		}
 		var err error
-		if len(solvedTokens) == 0 {
+		if isCyclic {
+			// invalid at computed-value time
+			err = errors.New("cyclic var() reference")
+		} else if len(solvedTokens) == 0 {
 			err = errors.New("no value")
 		} else if shortand != 0 {
 			// the tokens must be expanded (shortand are never variable)
@@ -1512,27 +1522,31 @@ func (styleFor StyleFor) SetPageComputedStylesT(pageType utils.PageElement, html
 	}
 }
 
-// Return tokens with resolved CSS variables.
-func resolveVar(computed map[string]pr.RawTokens, token Token) []Token {
+// Return tokens with resolved CSS variables, or nil if [token]
+// does not contain any var().
+// [visited] is the set of the custom properties being resolved: if one
+// of them is referenced again, the reference is cyclic and true is returned.
+func resolveVar(computed map[string]pr.RawTokens, token Token, visited utils.Set) (_ []Token, cyclic bool) {
 	if !validation.HasVar(token) {
-		return nil
+		return nil, false
 	}
 
 	fn := token.(pa.FunctionBlock)
 	if utils.AsciiLower(fn.Name) != "var" {
+		// var() is used in the arguments, at any depth
 		arguments := []Token{}
 		for _, argument := range fn.Arguments {
-			if fna, isFunction := argument.(pa.FunctionBlock); isFunction && utils.AsciiLower(fna.Name) == "var" {
-				arguments = append(arguments, resolveVar(computed, argument)...)
+			resolved, cyclic := resolveVar(computed, argument, visited)
+			if cyclic {
+				return nil, true
+			}
+			if resolved != nil {
+				arguments = append(arguments, resolved...)
 			} else {
 				arguments = append(arguments, argument)
 			}
 		}
-		token = pa.NewFunctionBlock(token.Pos(), fn.Name, arguments)
-		if resolved := resolveVar(computed, token); len(resolved) != 0 {
-			return resolved
-		}
-		return []Token{token}
+		return []Token{pa.NewFunctionBlock(token.Pos(), fn.Name, arguments)}, false
 	}
 
 	_, args := pa.ParseFunction(token)
@@ -1542,15 +1556,24 @@ func resolveVar(computed map[string]pr.RawTokens, token Token) []Token {
 
 	source := default_
 	if l := computed[variableName]; len(l) != 0 {
+		if visited.Has(variableName) {
+			return nil, true
+		}
+		visited.Add(variableName)
+		defer delete(visited, variableName)
 		source = l
 	}
 	computedValue := []Token{}
 	for _, value := range source {
-		if resolved := resolveVar(computed, value); resolved != nil {
+		resolved, cyclic := resolveVar(computed, value, visited)
+		if cyclic {
+			return nil, true
+		}
+		if resolved != nil {
 			computedValue = append(computedValue, resolved...)
 		} else {
 			computedValue = append(computedValue, value)
 		}
 	}
-	return computedValue
+	return computedValue, false
 }
